@@ -34,9 +34,12 @@ def check(w):
     else:
         scen_run = scen
     lines = []
+    # what the user asks to SEE must not change what happens: the arrangements of one scenario run with different display
+    # options (-v, -vv, --debug=all2: every logging branch of sender, generator and receiver is live)
+    DISPLAY = ([], ["-v"], ["--debug=all2"], ["-vv", "--debug=all2"])
     for g, s in enumerate(scen_run):
-        for arr in ARRS:
-            ln = p_sync.mk_line(s, arr, JUDGE)
+        for i, arr in enumerate(ARRS):
+            ln = p_sync.mk_line(s, arr, JUDGE, extra_flags=DISPLAY[(g + i) % 4])
             ln["group"] = g
             lines.append(ln)
     counts = {}
@@ -47,7 +50,7 @@ def check(w):
         "exhaustive": not quick,
         "samples": [{"opts": [k for k in OPTS if o["opts"].get(k)], "rules": o["rules"], "arr": o["arr"], "flags": o["flags"], "result": o["result"],
                      "final": [(n["p"], n["t"]) for n in o["final"]]} for o in obs[:3]],
-        "option_subsets_model_checked": len(scen), "option_subsets_run": len(scen_run), "arrangements": list(ARRS),
+        "option_subsets_model_checked": len(scen), "option_subsets_run": len(scen_run), "arrangements": list(ARRS), "display_options_varied_within_a_scenario": [" ".join(d) for d in DISPLAY],
         "evaluations": len(obs), "distinct_nontrivial": sum(1 for o in obs if any(o["opts"].get(k) for k in OPTS)),
         "rule": "every subset of {-r,-l,-p,-t,--devices,--specials,-c,-I,-n,--delete,-o,-g} with and without --exclude, on a tree with a directory, files, a symlink, a fifo and a character device "
                 "over a prior destination (different file, unlisted file), run with the real code on both ends in five arrangements (daemon pull, daemon push, local, library pull, library push); "
